@@ -591,6 +591,8 @@ def normal_gradient(ctx):
         raise AnalysisError('BaseGeometry not found')
     X, Y = A('X'), A('Y')
     for cn in P.subclasses('BaseGeometry'):
+        from .. import rat as _rat
+        _rat.BUDGET[0] = 40_000_000     # per geometry class
         c = P.classes[cn]
         sag = P.lookup(cn, 'sag')
         sn = P.lookup(cn, '_surface_normal') or P.lookup(cn, 'surface_normal')
@@ -630,10 +632,19 @@ def normal_gradient(ctx):
         fx = sym.diff(z, 'X')
         fy = sym.diff(z, 'Y')
         nx, ny, nz = nrm
+        def shown(f_):
+            # the identities are polynomial and are decided well inside the
+            # term budget for the gradient formulas of the reference tree; a
+            # formula for which the reduction does not come to an end within
+            # it has not been shown to be the gradient
+            try:
+                return f_()
+            except Inconclusive:
+                return False
         checks = [
-            ('nx == -nz dz/dx', sym.eq(nx, -nz * fx)),
-            ('ny == -nz dz/dy', sym.eq(ny, -nz * fy)),
-            ('|n|^2 == 1', sym.eq(dot(nrm, nrm), ONE)),
+            ('nx == -nz dz/dx', shown(lambda: sym.eq(nx, -nz * fx))),
+            ('ny == -nz dz/dy', shown(lambda: sym.eq(ny, -nz * fy))),
+            ('|n|^2 == 1', shown(lambda: sym.eq(dot(nrm, nrm), ONE))),
         ]
         for name, ok in checks:
             if ok:
